@@ -265,4 +265,92 @@ pub proof fn lemma_block0(sm: Seq<u32>)
 {
 }
 
+
+/// the size of the sieve of `fbase::primes(n)`: max(100, n * bitlen(n))
+pub open spec fn primes_bound(n: u32) -> int {
+    let b = n as int * (32 - vstd::std_specs::bits::u32_leading_zeros(n) as int);
+    if b > 100 { b } else { 100 }
+}
+/// v holds every prime below the (even) sieve bound
+pub open spec fn exhaustive(v: Seq<u32>, bound: int) -> bool {
+    forall|q: nat| #[trigger] is_prime_dv(q) && q < 2 * (bound / 2) ==> in_list(v, q as int)
+}
+
+
+/// A5 (published table of maximal prime gaps, e.g. OEIS A005250 / A002386): two consecutive primes below 1 349 533 differ
+/// by at most 114
+#[verifier::external_body]
+pub proof fn axiom_prime_gap(p: nat, q: nat)
+    requires
+        is_prime_dv(p), is_prime_dv(q), p < q, q < 1_349_533,
+        forall|m: nat| p < m < q ==> !#[trigger] is_prime_dv(m),
+    ensures q - p <= 114
+{}
+
+/// two entries of an increasing complete list of primes: nothing prime in between adjacent entries
+pub proof fn lemma_adjacent_primes(v: Seq<u32>, a: int, m: nat)
+    requires all_prime(v), increasing(v), complete(v), 0 <= a, a + 1 < v.len(), (v[a] as nat) < m < (v[a + 1] as nat)
+    ensures !is_prime_dv(m)
+{
+    if is_prime_dv(m) {
+        assert(v[a + 1] <= v[v.len() - 1]) by { if a + 1 < v.len() - 1 { assert(v[a + 1] < v[v.len() - 1]); } }
+        assert(in_list(v, m as int));
+        let b = choose|b: int| 0 <= b < v.len() && #[trigger] v[b] as int == m as int;
+        if b <= a { if b < a { assert(v[b] < v[a]); } }
+        else { if b > a + 1 { assert(v[a + 1] < v[b]); } }
+    }
+}
+
+/// adjacent entries above 2: even gap; below 1 349 533: gap <= 114
+pub proof fn lemma_adjacent_gap(v: Seq<u32>, a: int)
+    requires all_prime(v), increasing(v), complete(v), 0 <= a, a + 1 < v.len(), v[a] > 2, (v[a + 1] as int) < 1_349_533
+    ensures v[a] < v[a + 1], (v[a + 1] - v[a]) % 2 == 0, v[a + 1] - v[a] <= 114
+{
+    assert(v[a] < v[a + 1]);
+    assert(is_prime_dv(v[a] as nat) && is_prime_dv(v[a + 1] as nat));
+    let j1 = lemma_odd_prime_shape(v[a] as nat);
+    let j2 = lemma_odd_prime_shape(v[a + 1] as nat);
+    assert forall|m: nat| (v[a] as nat) < m < (v[a + 1] as nat) implies !#[trigger] is_prime_dv(m) by {
+        lemma_adjacent_primes(v, a, m);
+    }
+    axiom_prime_gap(v[a] as nat, v[a + 1] as nat);
+}
+
+/// the table of `primes(70000)`: it holds every prime up to 503 (either it has 70000 entries, the last of which is
+/// then >= 70001, or the sieve of size 70000 * 17 was exhausted)
+pub proof fn lemma_primes_70000(v: Seq<u32>)
+    requires
+        all_prime(v), increasing(v), complete(v), v.len() <= 70000, v.len() >= 1,
+        v.len() == 70000 || exhaustive(v, primes_bound(70000)),
+    ensures
+        forall|q: nat| #[trigger] is_prime_dv(q) && q <= 503 ==> in_list(v, q as int),
+        is_prime_dv(503), !is_prime_dv(500), !is_prime_dv(501), !is_prime_dv(502),
+{
+    assert(is_prime_c(503)) by (compute_only);
+    lemma_is_prime_c(503); lemma_is_prime_dv(503);
+    assert(divides(2, 500)); assert(divides(3, 501)); assert(divides(2, 502));
+    if v.len() == 70000 {
+        lemma_increasing_lower(v, 69999);
+        assert forall|q: nat| #[trigger] is_prime_dv(q) && q <= 503 implies in_list(v, q as int) by { }
+    } else {
+        vstd::std_specs::bits::axiom_u32_leading_zeros(70000);
+        super::bits::axiom_u32_lz_arith(70000);
+        let lz = vstd::std_specs::bits::u32_leading_zeros(70000);
+        vstd::arithmetic::power2::lemma2_to64();
+        if lz < 15 { vstd::arithmetic::power2::lemma_pow2_strictly_increases(16, (31 - lz) as nat); }
+        if lz > 15 { if lz < 16 { } else if lz > 16 { vstd::arithmetic::power2::lemma_pow2_strictly_increases((32 - lz) as nat, 16); } }
+        assert(lz == 15);
+        assert(primes_bound(70000) == 70000 * 17);
+    }
+}
+
+/// an increasing list of naturals: v[k] >= v[0] + k
+pub proof fn lemma_increasing_lower(v: Seq<u32>, k: int)
+    requires increasing(v), 0 <= k < v.len()
+    ensures v[k] >= v[0] + k
+    decreases k
+{
+    if k > 0 { lemma_increasing_lower(v, k - 1); assert(v[k - 1] < v[k]); }
+}
+
 } // verus!
